@@ -132,7 +132,18 @@ func runC19Processor(r *simkit.Run) {
 	sig := sigNames[tp.Draw(3)]
 	ad := adapterByName(sig)
 	set := processor.Settings{ID: component.MustNewID("simproc"), TelemetrySettings: tel.NewTelemetrySettings(), BuildInfo: component.NewDefaultBuildInfo()}
-	r.Sample = map[string]any{"sub": "processor", "signal": sig}
+	// declared capabilities: the helper's default, explicitly mutating, or non-mutating; a non-mutating processor that
+	// changes the data does so on a copy (copy-on-write) and returns the copy; a mutating one may do either
+	capsKind := tp.Draw(3)
+	cow := capsKind == 1 || tp.Chance(1, 3)
+	var opts []processorhelper.Option
+	switch capsKind {
+	case 1:
+		opts = append(opts, processorhelper.WithCapabilities(consumer.Capabilities{MutatesData: false}))
+	case 2:
+		opts = append(opts, processorhelper.WithCapabilities(consumer.Capabilities{MutatesData: true}))
+	}
+	r.Sample = map[string]any{"sub": "processor", "signal": sig, "capabilities": []string{"default", "MutatesData=false", "MutatesData=true"}[capsKind], "copy_on_write": cow}
 	ids := &gen.IDs{Prefix: "i"}
 	var given, forwarded, sinkGot int64
 	var action int // decided per call by the scheduler before the call
@@ -144,6 +155,11 @@ func runC19Processor(r *simkit.Run) {
 	case "logs":
 		sink, _ := consumer.NewLogs(func(_ context.Context, ld plog.Logs) error { sinkGot += int64(ld.LogRecordCount()); return sinkErr })
 		p, err := processorhelper.NewLogs(context.Background(), set, struct{}{}, sink, func(_ context.Context, ld plog.Logs) (plog.Logs, error) {
+			if cow {
+				n := plog.NewLogs()
+				ld.CopyTo(n)
+				ld = n
+			}
 			switch action {
 			case 1: // drop the first resource
 				dropped := false
@@ -157,7 +173,7 @@ func runC19Processor(r *simkit.Run) {
 			}
 			curOut = ld.LogRecordCount()
 			return ld, nil
-		})
+		}, opts...)
 		if err != nil {
 			panic(err)
 		}
@@ -165,6 +181,11 @@ func runC19Processor(r *simkit.Run) {
 	case "traces":
 		sink, _ := consumer.NewTraces(func(_ context.Context, td ptrace.Traces) error { sinkGot += int64(td.SpanCount()); return sinkErr })
 		p, err := processorhelper.NewTraces(context.Background(), set, struct{}{}, sink, func(_ context.Context, td ptrace.Traces) (ptrace.Traces, error) {
+			if cow {
+				n := ptrace.NewTraces()
+				td.CopyTo(n)
+				td = n
+			}
 			switch action {
 			case 1:
 				dropped := false
@@ -178,7 +199,7 @@ func runC19Processor(r *simkit.Run) {
 			}
 			curOut = td.SpanCount()
 			return td, nil
-		})
+		}, opts...)
 		if err != nil {
 			panic(err)
 		}
@@ -189,6 +210,11 @@ func runC19Processor(r *simkit.Run) {
 			return sinkErr
 		})
 		p, err := processorhelper.NewMetrics(context.Background(), set, struct{}{}, sink, func(_ context.Context, md pmetric.Metrics) (pmetric.Metrics, error) {
+			if cow {
+				n := pmetric.NewMetrics()
+				md.CopyTo(n)
+				md = n
+			}
 			switch action {
 			case 1:
 				dropped := false
@@ -202,7 +228,7 @@ func runC19Processor(r *simkit.Run) {
 			}
 			curOut = md.DataPointCount()
 			return md, nil
-		})
+		}, opts...)
 		if err != nil {
 			panic(err)
 		}
